@@ -254,6 +254,8 @@ pub const NETS: &[&str] = &[
     "merge2(fi,fi)",
     "merge2(sh,sh)",
     "combine2(sh,sh)",
+    "for_each(merge2)",
+    "for_each(concat2)",
 ];
 
 /// Networks of several real operators over puppets: the protocol oracles (C01-C05, C17) are
@@ -324,6 +326,23 @@ fn build_net(name: &str) -> WorldRt {
             let sh: Src = Arc::new(callbag::share(p[0].clone()));
             let c: Arc<Source<(i64, i64)>> = Arc::new(callbag::combine((sh.clone(), sh)));
             probe_world(c, rec_t2())
+        },
+        "for_each(merge2)" | "for_each(concat2)" => {
+            // the crate's own sink (it panics if it is handed Data before a Handshake) behind a tap
+            let inner: Src = if name.contains("merge2") {
+                Arc::new(callbag::merge(b(vec![p[0].clone(), p[1].clone()])))
+            } else {
+                Arc::new(callbag::concat(b(vec![p[0].clone(), p[1].clone()])))
+            };
+            let fe = callbag::for_each(|x: i64| call(CALL_FOREACH, x));
+            WorldRt {
+                subscribe: Some(std::rc::Rc::new(move |q| {
+                    with(|ex| ex.probe(q).subscribed = true);
+                    let tapped: Src = Arc::new(tap(q, inner.clone(), rec_i64()));
+                    fe(tapped);
+                })),
+                ..Default::default()
+            }
         },
         other => panic!("unknown net {other}"),
     }
